@@ -56,8 +56,21 @@ def valid(case):
 
 def phases(tier):
     if tier == 'quick':
-        return [Search('lifecycle-programs', cases, 150, shards=4)]
-    return [Search('lifecycle-programs', cases, 1500, shards=16)]
+        return [Search('lifecycle-programs', cases, 150, shards=4),
+                Search('after-worker-runs', multi_cases, 6, shards=1)]
+    return [Search('lifecycle-programs', cases, 1500, shards=16),
+            Search('after-worker-runs', multi_cases, 40, shards=1)]
+
+
+def multi_cases():
+    """The same programs, always with the simulate_multiple_times prelude, run in the checking process itself so that the
+    worker-process variant (max_processes=1) can start its worker."""
+    def on(case):
+        case = dict(case)
+        case['multi'] = True
+        case['attach'] = None
+        return case
+    return cases().map(on)
 
 
 def run_case(case, ctx):
